@@ -280,6 +280,8 @@ def drive(sub, variant, ctx, n_examples, seed_int, shrink_budget_s):
 
             @rule(data_=st.data())
             def step(self, data_):
+                if "case" not in failure and ctx.out_of_time():
+                    return
                 relaid = any(s_["op"] in RELAYOUT or s_["op"].endswith("_transform") for s_ in self.case["steps"])
                 step = data_.draw(step_strategy(self.case["cfg"]["n"], after_relayout=relaid, chunked=bool(self.gb.key_is_chunked),
                                                 has_twin="twin" in self.buffers))
